@@ -847,3 +847,7 @@ def replay(run, data) -> None:
         shutil.rmtree(tmp, ignore_errors=True)
     run.case('pad', True)
     run.case('pad2', True)
+
+
+# (kept at the end of the file so that the text above stays the description the check was first built to)
+RULE += ' ' + 'Later additions: props assigned over a base file whose prop lump is empty (standard layouts); entity keys that need escaping; light_styles longer than the 4-byte field in the fit engine.'
